@@ -1092,6 +1092,17 @@ class Interp:
         fr = Frame(c.frame.module, c.frame.cls, c.frame.func, env, parent=c.frame)
         return self.ev(node.body, fr)
 
+    def default_value(self, node, defframe):
+        """python evaluates the default of a module- or class-level def once: every call that leaves the parameter out receives the
+        same object (a mutable default is shared between calls).  Lambdas and nested defs are re-created each time their
+        definition runs, their defaults are evaluated then."""
+        if defframe.func is not None or defframe.parent is not None:
+            return self.ev(node, defframe)
+        cache = self.__dict__.setdefault('_defaults', {})
+        if id(node) not in cache:
+            cache[id(node)] = self.ev(node, defframe)
+        return cache[id(node)]
+
     def bind_args(self, a, args, kw, defframe, fname):
         env = {}
         params = [p.arg for p in a.posonlyargs + a.args]
@@ -1105,7 +1116,7 @@ class Interp:
             elif p in kw:
                 env[p] = kw.pop(p)
             elif defaults[i] is not None:
-                env[p] = self.ev(defaults[i], defframe)
+                env[p] = self.default_value(defaults[i], defframe)
             else:
                 raise Raised('TypeError', where='%s() missing argument %s' % (fname, p))
         if len(args) > len(params):
@@ -1116,7 +1127,7 @@ class Interp:
             env[a.vararg.arg] = ()
         for p, d in zip(a.kwonlyargs, a.kw_defaults):
             if p.arg in kw: env[p.arg] = kw.pop(p.arg)
-            elif d is not None: env[p.arg] = self.ev(d, defframe)
+            elif d is not None: env[p.arg] = self.default_value(d, defframe)
             else: raise Raised('TypeError', where='missing keyword-only argument')
         if a.kwarg is not None:
             env[a.kwarg.arg] = kw
